@@ -109,6 +109,15 @@ def run(tier, seed):
     if rc != 0 or len(hs) < n + 3:
         ck.violation("harness-crash", {"kind": "gen"}, {"rc": rc, "tail": out[-2000:]}, no_input=True)
         return ck.finish()
+    # minimized regression histories are replayed first
+    cdir = os.path.join(ROOT, "corpus", "C09")
+    corpus = []
+    if os.path.isdir(cdir):
+        for fn in sorted(os.listdir(cdir)):
+            for l in open(os.path.join(cdir, fn)):
+                if l.startswith("{"):
+                    h = json.loads(l); h["id"] = 100000 + len(corpus); h["corpus"] = fn; h.pop("note", None); corpus.append(h)
+    hs = corpus + hs
     for h in hs:
         h["ops"] = h.get("ops") or []; h["mods"] = h.get("mods") or []
     modelled = [h for h in hs if not h.get("probe")]
